@@ -1,2 +1,429 @@
-(* Model for C10 — to be written. Executable definitions only, no proofs. *)
-From WI Require Import Lib.Base Lib.Info.
+(* Model of cmd/decipher/main.go: main (flag handling, the loop over the arguments),
+   inspectDirectory, inspectFile, inspectStdin, over a file-system tree.
+   Executable definitions only, no proofs.
+
+   What one report looks like (the description of a file's content) is the business of
+   the other properties: it enters as the parameter [body_of path content], the text
+   printInfo writes for the file.Info that file.Inspect returns for a file of that name
+   and content.  [dispatch_body] instantiates it with the dispatcher model of C07. *)
+From WI Require Import Lib.Base Lib.Info Lib.Strings Model.Render Model.Dispatch.
+From WI Require gen.WalkConsts.
+Open Scope N_scope.
+
+(* main.go:119  const maxDepth = 1000   (regenerated from the source on every run) *)
+Definition max_depth : Z := gen.WalkConsts.max_depth.
+(* Linux: a path string of PATH_MAX (4096) bytes or more is refused with ENAMETOOLONG by
+   stat/open/getdents, whatever it names *)
+Definition path_max : nat := 4096.
+
+(* ---------- file-system trees ---------- *)
+(* LinkFile/LinkDir/LinkNone are the three target kinds of a symbolic link: a regular file
+   with the given content, a directory with the given listing, nothing (dangling). *)
+Inductive node : Type :=
+| Reg (name content : bytes)
+| Dir (name : bytes) (children : list node)
+| LinkFile (name content : bytes)
+| LinkDir (name : bytes) (children : list node)
+| LinkNone (name : bytes)
+| Fifo (name : bytes)
+| Sock (name : bytes).
+
+Definition node_name (n : node) : bytes :=
+  match n with
+  | Reg a _ | Dir a _ | LinkFile a _ | LinkDir a _ | LinkNone a | Fifo a | Sock a => a
+  end.
+
+(* what os.Stat (which follows links) sees *)
+Inductive skind : Type :=
+| SReg (content : bytes) | SDir (children : list node) | SFifo | SSock | SMissing.
+
+Definition stat (n : node) : skind :=
+  match n with
+  | Reg _ c | LinkFile _ c => SReg c
+  | Dir _ ch | LinkDir _ ch => SDir ch
+  | LinkNone _ => SMissing
+  | Fifo _ => SFifo
+  | Sock _ => SSock
+  end.
+
+Definition too_long (p : bytes) : bool := Nat.leb path_max (length p).
+Definition stat_at (p : bytes) (n : node) : skind := if too_long p then SMissing else stat n.
+
+(* ---------- path/filepath.Clean and Join (Unix) ---------- *)
+Fixpoint split_slash (l : bytes) : list bytes :=
+  match l with
+  | [] => [[]]
+  | c :: r =>
+      if c =? 47 then [] :: split_slash r
+      else match split_slash r with
+           | h :: t => (c :: h) :: t
+           | [] => [[c]]
+           end
+  end.
+
+Definition is_nilb (b : bytes) : bool := match b with [] => true | _ => false end.
+Definition is_dot (b : bytes) : bool := bytes_eqb b [46].
+Definition is_dotdot (b : bytes) : bool := bytes_eqb b [46; 46].
+
+(* one path element against the stack of kept elements (innermost first) *)
+Definition clean_step (rooted : bool) (stack : list bytes) (c : bytes) : list bytes :=
+  if is_nilb c || is_dot c then stack
+  else if is_dotdot c then
+    match stack with
+    | top :: below => if is_dotdot top then c :: stack else below
+    | [] => if rooted then [] else [c]
+    end
+  else c :: stack.
+
+Definition clean_comps (rooted : bool) (cs : list bytes) : list bytes :=
+  rev (fold_left (clean_step rooted) cs []).
+
+Definition is_rooted (p : bytes) : bool := match p with c :: _ => c =? 47 | [] => false end.
+
+Definition render_path (rooted : bool) (cs : list bytes) : bytes :=
+  if rooted then 47 :: join [47] cs
+  else match cs with [] => [46] | _ => join [47] cs end.
+
+Definition clean (p : bytes) : bytes :=
+  match p with
+  | [] => [46]
+  | _ => render_path (is_rooted p) (clean_comps (is_rooted p) (split_slash p))
+  end.
+
+(* filepath.Join(f, name): empty elements are ignored, the rest joined by "/" and cleaned *)
+Definition path_join (f name : bytes) : bytes :=
+  match f, name with
+  | [], [] => []
+  | [], _ => clean name
+  | _, [] => clean f
+  | _, _ => clean (f ++ 47 :: name)
+  end.
+
+(* ---------- os.ReadDir: entries sorted by name, byte-wise (Go string order) ---------- *)
+Fixpoint bytes_leb (a b : bytes) : bool :=
+  match a, b with
+  | [], _ => true
+  | _ :: _, [] => false
+  | x :: a', y :: b' => if x <? y then true else if y <? x then false else bytes_leb a' b'
+  end.
+
+Section SortBy.
+  Context {A : Type}.
+  Fixpoint insert_by (k : bytes) (v : A) (l : list (bytes * A)) : list (bytes * A) :=
+    match l with
+    | [] => [(k, v)]
+    | (k', v') :: r => if bytes_leb k k' then (k, v) :: l else (k', v') :: insert_by k v r
+    end.
+  Fixpoint sort_by (l : list (bytes * A)) : list (bytes * A) :=
+    match l with
+    | [] => []
+    | (k, v) :: r => insert_by k v (sort_by r)
+    end.
+End SortBy.
+
+Definition keyed (l : list node) : list (bytes * node) := map (fun c => (node_name c, c)) l.
+Definition read_dir (children : list node) : list node := map snd (sort_by (keyed children)).
+
+(* ---------- observable events ---------- *)
+Inductive event : Type :=
+| Report (path content : bytes)   (* stdout: "path: " ++ the description of that content *)
+| ReportEmpty (path : bytes)      (* stdout: "path: \n" (Inspect failed, the empty Info is printed) *)
+| StdinReport (content : bytes)   (* stdout: the description alone *)
+| VersionLine                     (* stdout: argv0 version *)
+| LogLine (path : bytes)          (* stderr: a log line about this path *)
+| Refusal (path : bytes)          (* stderr: "... is a directory. Specify -r ..." *)
+| UsageText.                      (* stderr: flag error and/or usage *)
+
+(* how the process ends *)
+Inductive status : Type :=
+| Exit (code : Z)
+| Blocked (path : bytes)          (* os.Open on a FIFO without writer never returns *)
+| Crashed (path : bytes).         (* nil dereference in file.Inspect(nil): Go exits with status 2 *)
+
+(* a partial run: events so far and, if the process has ended, how *)
+Definition res : Type := (list event * option status)%type.
+
+Definition seq (a : res) (k : res) : res :=
+  match a with
+  | (e, None) => (e ++ fst k, snd k)
+  | (e, Some s) => (e, Some s)
+  end.
+
+Fixpoint seq_all (l : list res) : res :=
+  match l with
+  | [] => ([], None)
+  | a :: r => seq a (seq_all r)
+  end.
+
+(* The defects repaired in the repository, kept as switches so that the pre-repair code
+   can still be evaluated (the _refuted theorems):
+   q_nil_after_open  (F9)  inspectFile went on with a nil *os.File after a failed open;
+   q_open_any        (F10) the walk handed every non-directory entry to inspectFile, which opens it;
+   q_readdir_fatal   (F10b) a sub-directory that cannot be read ended the process (log.Fatalln). *)
+Record quirks := mkq { q_nil_after_open : bool; q_open_any : bool; q_readdir_fatal : bool }.
+Definition repaired : quirks := mkq false false false.
+Definition pinned : quirks := mkq true true true.
+
+Section Walk.
+  Variable q : quirks.
+
+  (* main.go inspectFile(filePath), given what the path names *)
+  Definition inspect_file (p : bytes) (k : skind) : res :=
+    match k with
+    | SReg c => ([Report p c], None)                       (* open, Inspect, print *)
+    | SFifo => ([], Some (Blocked p))                      (* os.Open blocks *)
+    | SSock | SMissing =>                                  (* os.Open fails: ENXIO / ENOENT / ENAMETOOLONG *)
+        if q_nil_after_open q then ([LogLine p], Some (Crashed p)) else ([LogLine p], None)
+    | SDir _ => ([LogLine p; ReportEmpty p], None)         (* open succeeds, ReadAll fails with EISDIR *)
+    end.
+
+  (* the else-branch of the loop in inspectDirectory: an entry whose DirEntry.IsDir() is false *)
+  Definition other_entry (p : bytes) (k : skind) : res :=
+    if q_open_any q then inspect_file p k
+    else match k with
+         | SReg c => inspect_file p (SReg c)
+         | _ => ([LogLine p], None)                        (* os.Stat failed or not a regular file: skipped *)
+         end.
+
+  (* inspectDirectory(p, rem) once the listing is known; [subs] are the sorted entries,
+     each as a function of the directory's path and remaining depth *)
+  Definition walk_dir (subs : list (bytes * (bytes -> Z -> res))) (p : bytes) (rem : Z) : res :=
+    if (rem <? 0)%Z then ([], None)
+    else if too_long p then
+      (if q_readdir_fatal q then ([LogLine p], Some (Exit 1)) else ([LogLine p], None))
+    else seq_all (map (fun s => snd s p rem) subs).
+
+  (* one iteration of the loop of inspectDirectory(f, rem) for entry n *)
+  Fixpoint walk_entry (n : node) : bytes -> Z -> res :=
+    match n with
+    | Dir name ch =>
+        let subs := sort_by (map (fun c => (node_name c, walk_entry c)) ch) in
+        fun f rem => walk_dir subs (path_join f name) (rem - 1)%Z
+    | _ => fun f _ => let p := path_join f (node_name n) in other_entry p (stat_at p n)
+    end.
+
+  Definition walk_top (ch : list node) (arg : bytes) : res :=
+    walk_dir (sort_by (map (fun c => (node_name c, walk_entry c)) ch)) arg max_depth.
+End Walk.
+
+(* ---------- the flag package, for the two boolean flags of main ---------- *)
+Definition parse_bool (s : bytes) : option bool :=   (* strconv.ParseBool *)
+  if existsb (bytes_eqb s) [bs "1"; bs "t"; bs "T"; bs "TRUE"; bs "true"; bs "True"] then Some true
+  else if existsb (bytes_eqb s) [bs "0"; bs "f"; bs "F"; bs "FALSE"; bs "false"; bs "False"] then Some false
+  else None.
+
+Fixpoint split_eq (s : bytes) : bytes * option bytes :=   (* at the first '=' *)
+  match s with
+  | [] => ([], None)
+  | c :: r => if c =? 61 then ([], Some r)
+              else match split_eq r with (n, v) => (c :: n, v) end
+  end.
+
+Inductive flagres : Type :=
+| FOk (recursive version : bool) (rest : list bytes)
+| FHelp                                   (* -h / -help: usage, exit 0 *)
+| FError.                                 (* bad syntax, unknown flag, bad boolean: usage, exit 2 *)
+
+(* flag.FlagSet.parseOne, repeated *)
+Fixpoint parse_flags (r v : bool) (args : list bytes) : flagres :=
+  match args with
+  | [] => FOk r v []
+  | s :: rest =>
+      match s with
+      | c0 :: c :: s' =>
+          if negb (c0 =? 45) then FOk r v args                    (* first non-flag argument *)
+          else if (c =? 45) && is_nilb s' then FOk r v rest       (* "--" ends the flags *)
+          else
+            let name := if c =? 45 then s' else c :: s' in
+            match name with
+            | [] => FError
+            | n0 :: tl =>
+                if (n0 =? 45) || (n0 =? 61) then FError           (* bad flag syntax *)
+                else
+                  let '(tl', value) := split_eq tl in
+                  let nm := n0 :: tl' in
+                  let setb (k : bool -> flagres) :=
+                    match value with
+                    | None => k true
+                    | Some x => match parse_bool x with Some b => k b | None => FError end
+                    end in
+                  if bytes_eqb nm (bs "r") then setb (fun b => parse_flags b v rest)
+                  else if bytes_eqb nm (bs "version") then setb (fun b => parse_flags r b rest)
+                  else if bytes_eqb nm (bs "help") || bytes_eqb nm (bs "h") then FHelp
+                  else FError
+            end
+      | _ => FOk r v args                                         (* "", "-", one byte: not a flag *)
+      end
+  end.
+
+(* ---------- resolving an argument in the current directory ---------- *)
+Fixpoint lookup_name (name : bytes) (l : list node) : option node :=
+  match l with
+  | [] => None
+  | n :: r => if bytes_eqb (node_name n) name then Some n else lookup_name name r
+  end.
+
+Fixpoint resolve_in (cur : list node) (cs : list bytes) : skind :=
+  match cs with
+  | [] => SDir cur
+  | c :: rest =>
+      match lookup_name c cur with
+      | None => SMissing
+      | Some n =>
+          match rest with
+          | [] => stat n
+          | _ => match stat n with SDir ch => resolve_in ch rest | _ => SMissing end
+          end
+      end
+  end.
+
+Definition real_comp (c : bytes) : bool := negb (is_nilb c || is_dot c).
+
+(* os.Stat(arg) for a relative path without ".." elements: ""->ENOENT; "x/" and "x/."
+   demand a directory (ENOTDIR otherwise) *)
+Definition resolve (fs : list node) (arg : bytes) : skind :=
+  match arg with
+  | [] => SMissing
+  | _ =>
+      let raw := split_slash arg in
+      let k := resolve_in fs (filter real_comp raw) in
+      let must_dir := match rev raw with last :: _ :: _ => negb (real_comp last) | _ => false end in
+      if too_long arg then SMissing
+      else if must_dir then match k with SDir _ => k | _ => SMissing end else k
+  end.
+
+(* ---------- main ---------- *)
+Section Main.
+  Variable q : quirks.
+
+  (* the loop over flag.Args() *)
+  Fixpoint main_loop (fs : list node) (recursive : bool) (args : list bytes) : res :=
+    match args with
+    | [] => ([], None)
+    | f :: rest =>
+        match resolve fs f with
+        | SMissing => ([LogLine f], Some (Exit 1))                       (* log.Fatalln(err) *)
+        | SDir ch =>
+            if recursive then seq (walk_top q ch f) (main_loop fs recursive rest)
+            else ([Refusal f], Some (Exit 1))
+        | k => seq (inspect_file q f k) (main_loop fs recursive rest)
+        end
+    end.
+
+  Definition finish (r : res) : list event * status :=
+    match r with (e, Some s) => (e, s) | (e, None) => (e, Exit 0) end.
+
+  Definition main_run (fs : list node) (argv : list bytes) (stdin : bytes) : list event * status :=
+    match parse_flags false false argv with
+    | FError => ([UsageText], Exit 2)
+    | FHelp => ([UsageText], Exit 0)
+    | FOk recursive version rest =>
+        if version then ([VersionLine], Exit 0)
+        else
+          let f := match rest with a :: _ => a | [] => [] end in     (* flag.Arg(0) *)
+          if is_nilb f || bytes_eqb f [45] then ([StdinReport stdin], Exit 0)
+          else finish (main_loop fs recursive rest)
+    end.
+End Main.
+
+(* ---------- what is written to standard output ---------- *)
+Section Out.
+  Variable body_of : bytes -> bytes -> bytes.   (* path -> content -> printInfo(Inspect(file)) *)
+  Variable argv0 : bytes.
+
+  Definition stdin_path : bytes := bs "/dev/stdin".   (* os.Stdin.Name() *)
+
+  Definition out_of (e : event) : bytes :=
+    match e with
+    | Report p c => p ++ [58; 32] ++ body_of p c
+    | ReportEmpty p => p ++ [58; 32] ++ [10]
+    | StdinReport c => body_of stdin_path c
+    | VersionLine => argv0 ++ [32] ++ gen.WalkConsts.version ++ [10]
+    | LogLine _ | Refusal _ | UsageText => []
+    end.
+
+  Definition stdout_of (es : list event) : bytes := flat_map out_of es.
+End Out.
+
+(* the description text, by the dispatcher model of C07 and the renderer of C20; an
+   Inspect that panics is C01's subject and prints nothing here *)
+Definition dispatch_body (sniff : bytes -> bytes -> bool) (parse : bytes -> bytes -> result info)
+    (path content : bytes) : bytes :=
+  match inspect sniff parse path content with
+  | Ok i => print_info i 0
+  | _ => []
+  end.
+
+(* ---------- the specification side: what a recursive scan must report ---------- *)
+(* the tree with every listing sorted by name *)
+Fixpoint sort_tree (n : node) : node :=
+  match n with
+  | Dir name ch => Dir name (map snd (sort_by (map (fun c => (node_name c, sort_tree c)) ch)))
+  | LinkDir name ch => LinkDir name (map snd (sort_by (map (fun c => (node_name c, sort_tree c)) ch)))
+  | _ => n
+  end.
+Definition sort_listing (ch : list node) : list node :=
+  map snd (sort_by (map (fun c => (node_name c, sort_tree c)) ch)).
+
+(* depth-first enumeration, in listing order, of the entries that are regular files
+   (directly or through a link), with the path under which each is reported;
+   links to directories are not followed *)
+Fixpoint files_of (n : node) (f : bytes) : list (bytes * bytes) :=
+  match n with
+  | Reg name c | LinkFile name c => [(path_join f name, c)]
+  | Dir name ch => flat_map (fun c => files_of c (path_join f name)) ch
+  | _ => []
+  end.
+Definition files_in (ch : list node) (f : bytes) : list (bytes * bytes) :=
+  flat_map (fun c => files_of c f) ch.
+
+Definition dfs_sorted_regular_files (ch : list node) (d : bytes) : list (bytes * bytes) :=
+  files_in (sort_listing ch) d.
+
+(* number of directories between the scanned directory and the deepest entry *)
+Fixpoint height (n : node) : nat :=
+  match n with
+  | Dir _ ch => S (fold_right (fun c m => Nat.max (height c) m) 0%nat ch)
+  | _ => 0%nat
+  end.
+Definition height_in (ch : list node) : nat := fold_right (fun c m => Nat.max (height c) m) 0%nat ch.
+
+(* every path handed to the operating system during a scan of listing ch under f is short enough *)
+Fixpoint paths_ok (n : node) (f : bytes) : bool :=
+  let p := path_join f (node_name n) in
+  negb (too_long p) &&
+  match n with
+  | Dir _ ch => forallb (fun c => paths_ok c p) ch
+  | _ => true
+  end.
+Definition paths_ok_in (ch : list node) (f : bytes) : bool :=
+  negb (too_long f) && forallb (fun c => paths_ok c f) ch.
+
+(* the events that write to standard output *)
+Definition is_report (e : event) : bool :=
+  match e with Report _ _ | ReportEmpty _ | StdinReport _ | VersionLine => true | _ => false end.
+Definition reports (es : list event) : list event := filter is_report es.
+
+(* an argument that is neither a flag nor the "-" of standard input *)
+Definition plain_arg (a : bytes) : bool := match a with c :: _ => negb (c =? 45) | [] => false end.
+
+(* names a directory entry can have: not empty, not "." or "..", no '/' and no NUL *)
+Definition name_ok (a : bytes) : bool :=
+  negb (is_nilb a) && negb (is_dot a) && negb (is_dotdot a)
+  && forallb (fun b => negb (b =? 47) && negb (b =? 0)) a.
+
+Fixpoint names_distinct (l : list bytes) : bool :=
+  match l with
+  | [] => true
+  | a :: r => negb (existsb (bytes_eqb a) r) && names_distinct r
+  end.
+
+(* a tree that can exist: valid names, distinct within each directory *)
+Fixpoint tree_ok (n : node) : bool :=
+  name_ok (node_name n) &&
+  match n with
+  | Dir _ ch | LinkDir _ ch => names_distinct (map node_name ch) && forallb tree_ok ch
+  | _ => true
+  end.
+Definition listing_ok (ch : list node) : bool :=
+  names_distinct (map node_name ch) && forallb tree_ok ch.
